@@ -15,6 +15,9 @@
 #include <stdio.h>
 #include <stdlib.h>
 #include <string.h>
+#include <unistd.h>
+#include <signal.h>
+#include <sys/wait.h>
 
 #ifndef HOST_BUILD
 #include <uart.h>
@@ -73,6 +76,18 @@ int main(void)
 	setvbuf(stdout, NULL, _IOFBF, 1 << 20);
 	while (fgets(line, sizeof(line), stdin)) {
 		char *p = line;
+		/* one history = one process image: the request is handled in a forked child, so that nothing (allocator state, message
+		 * pools, statics of sercomm.c / msgb.c) can leak from one history into the next */
+		fflush(stdout);
+		pid_t pid = fork();
+		if (pid < 0) return 3;
+		if (pid > 0) {
+			int st = 0;
+			waitpid(pid, &st, 0);
+			if (WIFSIGNALED(st)) { raise(WTERMSIG(st)); return 4; }
+			if (WEXITSTATUS(st) != 0) return WEXITSTATUS(st);
+			continue;
+		}
 		memset(&sercomm, 0, sizeof(sercomm));
 		sercomm_init();
 		for (;;) {
@@ -113,6 +128,7 @@ int main(void)
 		}
 		printf("END\n");
 		fflush(stdout);
+		_exit(0);
 	}
 	return 0;
 }
